@@ -10,12 +10,12 @@ pub static DEF: CheckDef = CheckDef {
     id: "C11",
     run,
     replay,
-    rule: "every supported header combination (7 cartridge types x 12 ROM-size codes x 6 RAM-size codes = 504 configurations, each loaded with Core::from_rom_file from a sparse in-memory file of the declared size) x banking-register states (all register-edge values of bank-low x upper x mode, reached by guest writes; plus generated write histories) x every one of the 65536 addresses x {byte read, word read, byte write, word write} through the four bus helpers, plus OAM DMA from all 256 source pages and the instruction-fetch view of every region. The oracle is survival: a worker that dies by signal/abort, or a Rust panic, is a violation and the progress counter names the access. Non-trivial = distinct (configuration, banking state, access kind) sweeps, each of 65536 addresses.",
+    rule: "every supported header combination (7 cartridge types x 12 ROM-size codes x 6 RAM-size codes = 504 configurations, each loaded with Core::from_rom_file from a sparse in-memory file of the declared size) x banking-register states (all register-edge values of bank-low x upper x mode, reached by guest writes; plus generated write histories) x every one of the 65536 addresses x {byte read, word read, byte write, word write, stack-order word write} through the five bus helpers, plus OAM DMA from all 256 source pages and the instruction-fetch view of every region. The oracle is survival: a worker that dies by signal/abort, or a Rust panic, is a violation and the progress counter names the access. Non-trivial = distinct (configuration, banking state, access kind) sweeps, each of 65536 addresses.",
     assumptions: &[
         "builds with overflow checks and debug assertions on (harness release profile sets both)",
         "the test-only constructor Core::with_code_block (4 KiB work RAM) is not a loadable ROM file and is out of scope",
     ],
-    required_classes: &["read", "word-read", "write", "word-write", "dma", "fetch-view", "no-ram", "ram-2k", "bank-beyond-size"],
+    required_classes: &["read", "word-read", "write", "word-write", "push-word", "dma", "fetch-view", "no-ram", "ram-2k", "bank-beyond-size"],
     exhaustive: false,
 };
 
@@ -90,6 +90,15 @@ fn sweep(rec: &mut Rec, m: &mut i::M, cfg: (u8, u8, u8), state: &[(u16, u8)], ph
             }
             0
         }
+        "push-word" => {
+            // the stack-order store used by translated PUSH / CALL / RST
+            let p = &mut m.core.memory as *mut gbint::mem::MemoryAreas;
+            for a in (0..=0xffffu32).rev() {
+                rec.progress(a as u64);
+                gbint::mem::memory_push_word(p, a as u16, (a as u16).wrapping_mul(263) ^ 0x4321);
+            }
+            0
+        }
         "dma" => {
             for page in 0..=255u32 {
                 rec.progress(page as u64);
@@ -159,7 +168,7 @@ fn run(rec: &mut Rec) {
             }
         }
     }
-    let phases = ["read", "word-read", "write", "word-write", "dma", "fetch-view"];
+    let phases = ["read", "word-read", "write", "word-write", "push-word", "dma", "fetch-view"];
     for (idx, cfg) in configs.iter().enumerate() {
         if !rec.ctx.mine(idx) || rec.too_many() {
             continue;
@@ -217,6 +226,15 @@ fn run(rec: &mut Rec) {
 }
 
 fn replay(case: &Value, rec: &mut Rec) {
+    if case.get("kind").and_then(|k| k.as_str()) == Some("fuzz-bytes") {
+        let data = unhex(case.get("bytes").and_then(|b| b.as_str()).unwrap_or(""));
+        rec.eval(1);
+        rec.current(&case.to_string());
+        if let Err(msg) = fuzz_bus(&data) {
+            rec.violation("panic-script", case.clone(), msg);
+        }
+        return;
+    }
     let mut configs = Vec::new();
     for t in TYPES {
         for rc in ROM_CODES {
